@@ -29,6 +29,7 @@ PROP = {
         {"name": "cmdargs", "quick": 1000000, "thorough": 10000000, "maxlen": 128},
         {"name": "argvc", "quick": 1200000, "thorough": 12000000, "maxlen": 160},
         {"name": "argvc_bytes", "quick": 600000, "thorough": 6000000, "maxlen": 200},
+        {"name": "memmem_bytes", "quick": 500000, "thorough": 5000000, "maxlen": 120},
         {"name": "shell", "quick": 1200000, "thorough": 12000000, "maxlen": 128},
         {"name": "shell_nested", "quick": 300000, "thorough": 3000000, "maxlen": 64},
         {"name": "creader", "quick": 600000, "thorough": 6000000, "maxlen": 160},
@@ -36,7 +37,7 @@ PROP = {
         {"name": "path_long", "quick": 200000, "thorough": 2000000, "maxlen": 96},
         {"name": "text_long", "quick": 600000, "thorough": 6000000, "maxlen": 256},
     ],
-    "uchar": ["split", "trim", "argvc", "argvc_bytes", "cmdargs", "shell", "memmem", "replace"],
+    "uchar": ["split", "trim", "argvc", "argvc_bytes", "memmem_bytes", "cmdargs", "shell", "memmem", "replace"],
     "fuzz": [
         {"name": "cmdargs", "secs": 40, "maxlen": 128},
         {"name": "shell", "secs": 40, "maxlen": 128},
